@@ -31,8 +31,8 @@
     * `mdsGap`   — inputs the C09/C11 models do not cover (`FErr.dataUnsupported`: an instrument
                    definition outside Model/MdsData's grammar; a platform command outside
                    Model/MdsPlatform, i.e. the register-name commands `tl1 …`);
-    * `endEvent` — a parsed song that contains an explicit `END` event (the reader never emits
-                   one; C04's theorems exclude them, so the validator is not run on such a song).
+  (C04's theorems are about songs without explicit `END` events; the reader emits none —
+  `parseStage_noEnd`, Proofs/PipelineNoEnd — so the validate stage needs no such case.)
 
   Classification of the model errors (what the C++ does at that point):
     input error  `Lexer.Err.input`; every `Player.PErr` raised through `Basic_Player::error`;
@@ -159,7 +159,7 @@ def validateTracks (song : Song) (fuel : Nat) : List (Nat × List Event) → Out
 
 def validateSong (song : Song) (fuel : Nat) : Out Unit := validateTracks song fuel song.tracks
 
-/-- does the song hold an explicit `END` event (outside C04's domain; the reader emits none) -/
+/-- does the song hold an explicit `END` event (outside C04's domain; the reader emits none: `parseStage_noEnd`) -/
 def hasEndEvent (song : Song) : Bool :=
   song.tracks.any fun p => p.2.any fun e => e.kind == .fin
 
@@ -195,8 +195,6 @@ structure Residual where
   link : Bytes → Out Unit
   /-- the mds export of an input outside Model/MdsData / Model/MdsPlatform -/
   mdsGap : MdsFile.Input → Out Bytes
-  /-- the rest of the pipeline for a parsed song with an explicit `END` event -/
-  endEvent : Mml.MmlState → Out Bytes
 
 /-! ### export -/
 
@@ -254,7 +252,6 @@ def pipelineS (u : Residual) (files : List (String × Bytes)) (opt : Bool) (fmt 
   | .inputError m => (.parse, .inputError m)
   | .foreign k => (.parse, .foreign k)
   | .ok st =>
-    if hasEndEvent (songOf st) then (.validate, u.endEvent st) else
     match validateSong (songOf st) b.steps with
     | .inputError m => (.validate, .inputError m)
     | .foreign k => (.validate, .foreign k)
